@@ -65,7 +65,7 @@ def run(ctx):
                                       rng.choice([2, 3, 4, 5, 6, 7, -2, -3]))) for _ in range(150 if q else 3000)]
     xs += [("0", E.gen_xexpr(rng, 3)) for _ in range(80 if q else 2000)]
     ds = [E.gen_decides_pair(rng, rng.randint(2, 3)) for _ in range(300 if q else 8000)]
-    ms = [(m, n) for m in range(0, 7 if q else 9) for n in range(0, 9 if q else 13)]
+    ms = [(m, n) for m in range(0, 7 if q else 8) for n in range(0, 9 if q else 11)]
     stats = {}
     explore(ctx, drv, model, xs, ds, ms, stats)
     if ctx.broken and not ctx.violations:
@@ -85,7 +85,7 @@ def run(ctx):
                        "the repaired defects), random polynomial expressions over Q in x, y, z, random expressions of the quantifier (sums, products, integer "
                        "powers incl. negative, nested sums, opaque function applications, symbolic and rational exponents), products of powers of sums, "
                        "powers 2..7 of sums with 2..5 terms; pairs (p, q) of polynomials where q is an algebraic rewriting of p (commuted, distributed, "
-                       "binomial formula) or a perturbation; multinomial tables for all m < 7, n < 9 (thorough: m < 9, n < 13); evaluations = expand "
+                       "binomial formula) or a perturbation; multinomial tables for all m < 7, n < 9 (thorough: m < 8, n < 11); evaluations = expand "
                        "calls compared with the model + pairs + tables; an expand call is non-trivial when its result differs from its argument; "
                        "distinct = distinct argument dumps")
     ctx.assumptions += [
